@@ -7,6 +7,18 @@ ALL = ["C%02d" % i for i in range(1, 21)]
 
 # id -> (technique, level text, level note, design section)
 CLAIMED = {
+ "C13": ("stateful property-based testing of ChainTracker on regtest with mined headers, constructed proofs and attestation sets; one injected fault per request; oracle = reference chain model (accepted implies no injected fault), snapshot equality after every refusal, a valid request succeeds after a rejection",
+         "Held-on-N-histories exploration; the header-pop-before-validation defect was repaired by a fix: commit; the missing abort path for refused streamed blocks is listed as known findings (three signatures, one root cause).",
+         "Only regtest proof-of-work can be mined: mainnet/testnet checkpoints get refusal paths only; retarget rule is the x4 band as implemented (no timestamp retargeting).",
+         "C13"),
+ "C09": ("property-based testing: sweeps with labelled destinations and version/locktime/sequence drawn around their bounds; second-level HTLC transactions as hand-built BOLT-3 reference +- one mutation; oracle = acceptance implies a reference predicate, sighash equality with the hand-built reference, signature verification under the expected derived key",
+         "Held-on-N-cases exploration; the genuine defect found (sequence checked on input 0 instead of the signed input) was repaired by a fix: commit.",
+         "HTLC redeemscripts from LDK (generator side only); reference second-level tx and to-local script hand-built with rust-bitcoin.",
+         "C09"),
+ "C19": ("property-based testing with generators derived at build time from the message definitions (build.rs parses msgs.rs/model.rs; unknown field types fail the build): encode/decode/re-encode round trip, Debug equality, typed-path agreement; semantic oracle for streamed PSBTs (transaction, previous outputs, independent BIP-141 segwit-flag rule); byte-level mutation fixed-point check in the thorough tier",
+         "Held-on-N-cases exploration over all 112 message types (>= 50 hits each or the run is vacuous); the genuine defect found (message id collision) was repaired by a fix: commit.",
+         "Symmetric encoder/decoder errors are invisible to a round trip; rust-bitcoin and the txoo proof builder construct inputs.",
+         "C19"),
  "C07": ("property-based testing: channel states reached by real requests x generated close proposals with labelled outputs through both entry points; oracle = acceptance implies a reference predicate (exists output assignment), signature verification against the harness-built closing transaction, closed flag in memory and in a signer restored from the store",
          "Held-on-N-cases exploration of mutual-close validation.",
          "Trusted: LDK ClosingTransaction builder, BOLT-3 closing witness weight 222, +2/kw tolerance.",
